@@ -655,7 +655,7 @@ impl Sim {
         if self.profile == "rollups" {
             self.serve_and_tamper(height).await;
         }
-        if self.profile == "ibc" || self.profile == "mixed" {
+        if self.profile == "ibc" || self.profile == "mixed" || self.profile == "ledger" {
             self.run_packets().await;
         }
     }
